@@ -376,6 +376,25 @@ def leaf_mutations(tree, rng, n=6):
         else:
             continue
         out.append((T.replace_at(tree, p, (tag, typ, nv)), 'empty' if nv in ('', b'') else 'value'))
+    # structural edits: the decoder may accept a message with a field dropped, repeated or moved - the decode-first
+    # clause then holds for those bytes as well
+    structs = [(p, it) for p, it in T.walk(tree) if it[1] == T.STRUCTURE and it[2]]
+    for _ in range(max(1, n // 2)):
+        if not structs:
+            break
+        p, it = rng.choice(structs)
+        kids = list(it[2])
+        how = rng.choice(('drop', 'drop', 'dup', 'swap'))
+        i = rng.randrange(len(kids))
+        if how == 'drop':
+            kids.pop(i)
+        elif how == 'dup':
+            kids.insert(i, kids[i])
+        else:
+            j = rng.randrange(len(kids))
+            kids[i], kids[j] = kids[j], kids[i]
+        nt = (it[0], it[1], kids)
+        out.append((T.replace_at(tree, p, nt) if p else nt, 'struct-' + how))
     return out
 
 
